@@ -13,7 +13,7 @@ def smtp_closeBeforeDone : Bool := true
 /-- Start receives from <context.Context parameter>.Done() as a statement and then, on the same path, calls Close() on the field Accept() is called on -/
 def smtp_startClosesListenerAfterDone : Bool := true
 
-/-- the accept loop returns inside a select case receiving from <context.Context parameter>.Done() -/
+/-- the accept loop returns on the path through a select case receiving from <context.Context parameter>.Done(): the return stands in that case, or the case does nothing but log and the statement the select rejoins at is the return -/
 def smtp_serveReturnsOnDone : Bool := true
 
 /-- Drain's only blocking operation is one <WaitGroup field>.Wait(); no loop, no goroutine -/
@@ -34,7 +34,7 @@ def pop3_closeBeforeDone : Bool := true
 /-- Start receives from <context.Context parameter>.Done() as a statement and then, on the same path, calls Close() on the field Accept() is called on -/
 def pop3_startClosesListenerAfterDone : Bool := true
 
-/-- the accept loop returns inside a select case receiving from <context.Context parameter>.Done() -/
+/-- the accept loop returns on the path through a select case receiving from <context.Context parameter>.Done(): the return stands in that case, or the case does nothing but log and the statement the select rejoins at is the return -/
 def pop3_serveReturnsOnDone : Bool := true
 
 /-- Drain's only blocking operation is one <WaitGroup field>.Wait(); no loop, no goroutine -/
